@@ -3,6 +3,7 @@ import ast
 
 from ..model import src, walk_local, AnalysisError
 from ..linform import poly, show
+from .. import tz_rules as R
 from .. import unit
 from ..prog import check_cursor_loop
 from ..rules_lock import stmt_text
@@ -230,28 +231,7 @@ def run(ctx):
     ctx.ob("C08.RULEKEYS", tzp, "POSIX weekday 0=Sunday is converted to Monday=0 by (d - 1) mod 7", wdm == ["(int(l[i])-1)%7"], construct="x.weekday conversion", detail=str(wdm))
 
     # ---------------------------------------------------------------- C08.HALFOPEN
-    nd = prog.func("tz._common.tzrangebase._naive_isdst", "C08.HALFOPEN")
-    ncfg = ctx.cfg(nd)
-    nf = ctx.facts(nd)
-    asg = [n for n in ncfg.live_nodes() if n.kind == "stmt" and isinstance(n.ast, ast.Assign) and src(n.ast.targets[0]) == "isdst"]
-    got_h = {}
-    for n in asg:
-        v = n.ast.value
-        neg = False
-        while isinstance(v, ast.UnaryOp) and isinstance(v.op, ast.Not):
-            neg = not neg
-            v = v.operand
-        key = "north" if ("dston < dstoff", True) in nf.at(n) else ("south" if ("dston < dstoff", False) in nf.at(n) else "?")
-        if isinstance(v, ast.Compare) and len(v.ops) == 2:
-            got_h[key] = (neg, src(v.left), type(v.ops[0]).__name__, src(v.comparators[0]), type(v.ops[1]).__name__, src(v.comparators[1]))
-    want_h = {"north": (False, "dston", "LtE", "dt", "Lt", "dstoff"), "south": (True, "dstoff", "LtE", "dt", "Lt", "dston")}
-    ctx.ob("C08.HALFOPEN", nd, "daylight time is the half-open interval [start, end) in both hemisphere orders (start instant is DST, end instant is standard)",
-           got_h == want_h, construct="_naive_isdst comparators", detail="" if got_h == want_h else str(got_h), analysis="CMP comparator table from branch facts")
-    ia = prog.func("tz._common.tzrangebase.is_ambiguous", "C08.HALFOPEN")
-    rets = [x for x in walk_local(ia.node) if isinstance(x, ast.Return) and isinstance(x.value, ast.Compare)]
-    oka = len(rets) == 1 and [type(o).__name__ for o in rets[0].value.ops] == ["LtE", "Lt"] and src(rets[0].value.left) == "end" and \
-        poly(rets[0].value.comparators[1]) == {("end",): 1, ("self._dst_base_offset",): 1}
-    ctx.ob("C08.HALFOPEN", ia, "the repeated hour is [end, end + saving)", oka, construct="is_ambiguous window")
+    R.check_halfopen(ctx, "C08.HALFOPEN")
 
     # ---------------------------------------------------------------- C08.RANGE
     tr = prog.cls("tz.tz.tzrange", "C08.RANGE")
